@@ -9,7 +9,9 @@
   * a primary-scoped context taken on a node is `done` once that node is no longer primary;
   * `acquire-existing k` (handoff) only follows a `handoff p k` request answered `ok`;
   * after a manual demotion, a failed renewal period or a graceful stop the lease was destroyed
-    (`release p`), never after a handoff.
+    (`release p`), never after a handoff;
+  * an import request (`import-bg`) that was still waiting for the write lock when its node was
+    seen without the primary role is refused, and the node's position is what it was.
 -/
 import LiteFSVerif.Driver.Util
 
@@ -25,6 +27,7 @@ structure St where
   taken : List Nat := []               -- nodes on which a primary-scoped context was taken while primary
   expectRelease : Option Nat := none   -- a demotion / renewal failure / stop of this primary must destroy the lease
   outage : Option Nat := none          -- this node was primary when every renewal began to fail (the op returns once a full TTL and more has passed)
+  imp : List (Nat × String × Bool) := []  -- import requests in flight: (node, position when issued ("" = may legitimately move), node seen non-primary since)
   dead : Bool := false
 
 def parseRoles (obs : String) : List (Nat × String × String) × String × String :=
@@ -50,12 +53,28 @@ def check (st : St) (op obs : String) : St × String :=
     ({ st with nc := rest.filterMap fun a => if a.startsWith "nc=" then (a.drop 3).toString.toNat? else none }, "ok")
   | ["quiet"] => (st, if obs == "ok" then "ok" else "FAIL node beliefs and the lease service did not come to agree")
   | ["handoff", _, k] => ({ st with handoffTo := if obs == "ok" then k.toNat? else st.handoffTo }, "ok")
-  | ["demote", p] => ({ st with expectRelease := if obs == "ok" then p.toNat? else st.expectRelease }, "ok")
+  | ["demote", p] | ["demote-nowait", p] => ({ st with expectRelease := if obs == "ok" then p.toNat? else st.expectRelease }, "ok")
   | ["down", p] => ({ st with expectRelease := if st.holder == p.toNat? then p.toNat? else st.expectRelease, taken := st.taken.filter (some · ≠ p.toNat?) }, "ok")
   | ["crash", p] => ({ st with taken := st.taken.filter (some · ≠ p.toNat?) }, "ok")
   | ["up", p] => ({ st with taken := st.taken.filter (some · ≠ p.toNat?) }, "ok")
   | ["renewerr", "on"] => ({ st with expectRelease := st.holder, outage := st.holder }, "ok")
   | ["renewerr", "off"] => ({ st with outage := none }, "ok")
+  | ["import-bg", k, _] =>
+    let k := k.toNat?.getD 0
+    (match obs.splitOn " pos=" with
+     | ["started", p] => ({ st with imp := (k, p, false) :: st.imp.filter (·.1 ≠ k) }, "ok")
+     | _ => (st, "ok"))
+  | ["import-join", k] =>
+    let k := k.toNat?.getD 0
+    (match st.imp.find? (·.1 == k), obs.splitOn " pos=" with
+     | some (_, p0, lost), [res, p1] =>
+       let st := { st with imp := st.imp.filter (·.1 ≠ k) }
+       if lost ∧ res == "ok" then
+         (st, s!"FAIL node {k} performed an import that was still queued for the write lock when the node lost the primary role")
+       else if lost ∧ p0 ≠ "" ∧ p1 ≠ p0 then
+         (st, s!"FAIL node {k} lost the primary role while an import was queued for the write lock; the request was answered with an error but the position moved from {p0} to {p1}")
+       else (st, "ok")
+     | _, _ => (st, "ok"))
   | ["pctx-take", k] => (if obs == "alive" then { st with taken := (k.toNat?.getD 0) :: st.taken } else st, "ok")
   | ["events"] =>
     if obs == "-" then (st, "ok") else
@@ -68,11 +87,11 @@ def check (st : St) (op obs : String) : St × String :=
         let k := k.toNat?.getD 0
         if st.nc.contains k then ({ st with holder := some k }, s!"FAIL non-candidate node {k} acquired the free lease")
         else if st.holder.isSome then ({ st with holder := some k }, s!"FAIL node {k} acquired the lease while node {st.holder.getD 0} holds it")
-        else ({ st with holder := some k }, "ok")
+        else ({ st with holder := some k, imp := st.imp.map fun (i, _, l) => (i, "", l) }, "ok")
       | ["acquire-existing", k] =>
         let k := k.toNat?.getD 0
         if st.handoffTo ≠ some k then ({ st with holder := some k }, s!"FAIL the lease was handed to node {k}, which no accepted handoff request named")
-        else ({ st with holder := some k, handoffTo := none, expectRelease := none }, "ok")
+        else ({ st with holder := some k, handoffTo := none, expectRelease := none, imp := st.imp.map fun (i, _, l) => (i, "", l) }, "ok")
       | ["release", k] =>
         ({ st with holder := if st.holder == k.toNat? then none else st.holder,
                    expectRelease := if st.expectRelease == k.toNat? then none else st.expectRelease }, "ok")
@@ -81,7 +100,8 @@ def check (st : St) (op obs : String) : St × String :=
     (st, verdict)
   | ["roles"] =>
     let (nodes, h, c) := parseRoles obs
-    let st := { st with lastRoles := nodes, svcCid := c }
+    let st := { st with lastRoles := nodes, svcCid := c,
+                        imp := st.imp.map fun (i, p, l) => (i, p, l || !(nodes.any fun n => n.1 == i && n.2.1 == "primary")) }
     let prim := nodes.filter fun n => n.2.1 == "primary"
     if prim.length > 1 then (st, s!"FAIL more than one node acts as primary: {obs.take 120}") else
     if (match st.outage with | some p => prim.any (fun n => n.1 == p) | none => false) then
